@@ -19,6 +19,7 @@ use statime::port::{
 };
 use statime::time::{Duration, Interval, Time};
 use statime::{Clock, PtpInstance, PtpInstanceState, PtpInstanceStateMutex};
+use statime_linux::tlvforwarder::TlvForwarder;
 
 use crate::{catch, coq_bool, n, nbytes, nlist, nu};
 
@@ -383,8 +384,14 @@ pub struct Sim {
     pub icfg: InstCfg,
     /// timestamp contexts handed out and not yet returned, per port
     pub pending: Vec<Vec<Pending>>,
-    /// forwarded TLVs waiting per port (the daemon's per-port receiver)
+    /// forwarded TLVs waiting per port: specification of the daemon's per-port
+    /// `TlvForwarder` (tokio broadcast receiver of capacity 128 + one peeked
+    /// element), kept in step with the real forwarders below.  The queue shown to
+    /// the model is `peeks[p]` followed by `queues[p]`.
     pub queues: Vec<VecDeque<Fwd>>,
+    pub peeks: Vec<Option<Fwd>>,
+    /// the real forwarders (statime-linux), one duplicate per port as in main.rs
+    fwd: Vec<TlvForwarder>,
     /// frames emitted by the last call: (port, is_event, bytes)
     pub last_frames: Vec<(usize, bool, Vec<u8>)>,
     /// timer resets requested by the last call: (port, kind 0=announce 1=sync 2=delay-request 3=announce-receipt 4=filter-update, ns)
@@ -406,19 +413,27 @@ pub struct Sim {
     pub parent: (u64, u16),
 }
 
-struct QueueProvider<'a> {
-    q: &'a mut VecDeque<Fwd>,
+/// The provider handed to `handle_announce_timer`: the daemon's real
+/// `TlvForwarder`.  Beside it the specification queue is advanced (FIFO; the head
+/// is kept while it does not fit), so that the queue printed for the model in the
+/// next announce event is what a faithful forwarder would still hold.
+struct FwdProvider<'a> {
+    real: &'a mut TlvForwarder,
+    peek: &'a mut Option<Fwd>,
+    ring: &'a mut VecDeque<Fwd>,
 }
 
-impl ForwardedTLVProvider for QueueProvider<'_> {
+impl ForwardedTLVProvider for FwdProvider<'_> {
     fn next_if_smaller(&mut self, max_size: usize) -> Option<ForwardedTLV<'_>> {
-        match self.q.front() {
-            Some(f) if f.tlv.size() <= max_size => {
-                let f = self.q.pop_front().unwrap();
-                Some(f.tlv)
-            }
-            _ => None,
+        if self.peek.is_none() {
+            *self.peek = self.ring.pop_front();
         }
+        match self.peek.take() {
+            Some(f) if f.tlv.size() <= max_size => {}
+            Some(f) => *self.peek = Some(f),
+            None => {}
+        }
+        self.real.next_if_smaller(max_size)
     }
 }
 
@@ -565,6 +580,11 @@ impl Sim {
             icfg,
             pending: (0..n).map(|_| Vec::new()).collect(),
             queues: (0..n).map(|_| VecDeque::new()).collect(),
+            peeks: (0..n).map(|_| None).collect(),
+            fwd: {
+                let root = TlvForwarder::new();
+                (0..n).map(|_| root.duplicate()).collect()
+            },
             last_frames: Vec::new(),
             last_resets: Vec::new(),
             init_resets: Vec::new(),
@@ -729,7 +749,12 @@ impl Sim {
                 p,
                 self.queues
                     .get(*p)
-                    .map(|q| q.iter().map(|f| format!("mkFwd {}", f.coq)).collect::<Vec<_>>().join("; "))
+                    .map(|q| self.peeks[*p]
+                        .iter()
+                        .chain(q.iter())
+                        .map(|f| format!("mkFwd {}", f.coq))
+                        .collect::<Vec<_>>()
+                        .join("; "))
                     .unwrap_or_default()
             ),
             Ev::SyncTimer(p) => format!("EvSyncTimer {}%nat", p),
@@ -755,6 +780,8 @@ impl Sim {
             let ports = &mut self.ports;
             let pending = &mut self.pending;
             let queues = &mut self.queues;
+            let peeks = &mut self.peeks;
+            let fwds = &mut self.fwd;
             let out_ref = &mut out;
             let np = &mut new_pending;
             let nf = &mut new_fwd;
@@ -778,10 +805,14 @@ impl Sim {
                         on!(i, |p| p.handle_send_timestamp(pend.ctx, time_bits(t)))
                     }
                     Ev::AnnounceTimer(i) => {
-                        let mut empty = VecDeque::new();
-                        let q = queues.get_mut(i).unwrap_or(&mut empty);
-                        let mut prov = QueueProvider { q };
-                        on!(i, |p| p.handle_announce_timer(&mut prov))
+                        if i < queues.len() {
+                            let mut prov = FwdProvider {
+                                real: &mut fwds[i],
+                                peek: &mut peeks[i],
+                                ring: &mut queues[i],
+                            };
+                            on!(i, |p| p.handle_announce_timer(&mut prov))
+                        }
                     }
                     Ev::SyncTimer(i) => on!(i, |p| p.handle_sync_timer()),
                     Ev::DelayReqTimer(i) => on!(i, |p| p.handle_delay_request_timer()),
@@ -831,12 +862,17 @@ impl Sim {
         }
         for (i, f) in new_fwd {
             if self.auto_forward {
+                // main.rs: every ForwardTLV action goes to the shared broadcast channel,
+                // i.e. to the receiver of every port (the forwarding port included)
+                self.fwd[i].forward(f.tlv.clone());
                 for j in 0..self.queues.len() {
-                    if j != i && self.queues[j].len() < 128 {
-                        self.queues[j].push_back(Fwd {
-                            tlv: f.tlv.clone(),
-                            coq: f.coq.clone(),
-                        });
+                    self.queues[j].push_back(Fwd {
+                        tlv: f.tlv.clone(),
+                        coq: f.coq.clone(),
+                    });
+                    // a receiver that lags more than the channel capacity loses the oldest
+                    if self.queues[j].len() > 128 {
+                        self.queues[j].pop_front();
                     }
                 }
             }
